@@ -283,7 +283,7 @@ class Normaliser:
                             k = match_close(toks, k)
                         k += 1
                     op = "||" if t.text == "|=" else "&&"
-                    out += mk("= %s %s (" % (p.text, op)) + toks[i + 1:k] + mk(")")
+                    out += mk("= %s %s (" % (p.text, op)) + self.bool_ops(toks[i + 1:k]) + mk(")")
                     self.note("N5-bool-" + t.text)
                     i = k
                     continue
